@@ -160,7 +160,13 @@ def field_narrowings(ctx: Ctx, c: ClassInfo, f: FieldInfo) -> List[Tuple[str, Tu
         if len(params) < 3:
             continue
         val = Sym('value')
-        outs = ctx.ev.run(vfi, {params[0]: self_t, params[2]: val}, self_cls=c)
+        # one validator may serve several fields and ask its attribute argument which one it is checking
+        attr_t = Sym('attribute')
+        ctx.ev.assume[Attr(attr_t, 'name')] = Const(f.name)
+        try:
+            outs = ctx.ev.run(vfi, {params[0]: self_t, params[1]: attr_t, params[2]: val}, self_cls=c)
+        finally:
+            ctx.ev.assume.pop(Attr(attr_t, 'name'), None)
         for o in outs:
             # the primitives, wherever the helpers put them: the intersection test value.data_type & T (checked), and
             # object.__setattr__(value, 'data_type', ... value.data_type & T ...) (narrowed)
